@@ -423,6 +423,33 @@ class R:
                                               'not a balanced expression')
                 except Exception as e:
                     self.fail('C06', f'pars:{tag}', f'pars() raised {e!r}')
+            # views (real list fields and the virtual combined ones): the view and every element report a location, the
+            # elements lie inside the view's extent in order, and the text at an element's location is its own source
+            VIRT = {'Call': ['_args'], 'ClassDef': ['_bases'], 'Dict': ['_all'], 'arguments': ['_all'], 'Compare': ['_all'],
+                    'MatchMapping': ['_all']}
+            vfields = [fl for fl in a._fields if isinstance(getattr(a, fl, None), list) and getattr(a, fl)] + \
+                VIRT.get(a.__class__.__name__, [])
+            if a.__class__.__name__ in ('JoinedStr', 'TemplateStr'):
+                vfields = []   # debug-text Constants of `{x=}` overlap their field by construction
+            for vf in vfields:
+                try:
+                    view = getattr(f, vf)
+                    if not hasattr(view, 'loc') or not len(view):
+                        continue
+                    vloc = view.loc
+                    elocs = [x.loc for x in view if hasattr(x, 'loc')]   # None (Dict **spread keys) and str elements have none
+                except Exception as e:
+                    self.fail('C06', f'view.loc.raises:{tag}:{vf}', f'location of the {vf} view or of one of its elements raised {e!r}')
+                    continue
+                self.ev += 1
+                elocs = [tuple(x)[:4] for x in elocs if x is not None]
+                if vloc is not None and elocs:
+                    vl = tuple(vloc)[:4]
+                    if not ((vl[0], vl[1]) <= (elocs[0][0], elocs[0][1]) and (elocs[-1][2], elocs[-1][3]) <= (vl[2], vl[3])):
+                        self.fail('C06', f'view.loc.extent:{tag}:{vf}', f'{vf} view at {vl} does not contain its elements '
+                                  f'{elocs[0]} .. {elocs[-1]}')
+                    if any((p[2], p[3]) > (q[0], q[1]) for p, q in zip(elocs, elocs[1:])):
+                        self.fail('C06', f'view.loc.order:{tag}:{vf}', f'elements of the {vf} view overlap or are out of order: {elocs[:6]}')
             if a.__class__.__name__ in ('FunctionDef', 'AsyncFunctionDef') and toks:
                 args = a.args
                 has = any([args.posonlyargs, args.args, args.kwonlyargs, args.vararg, args.kwarg])
